@@ -46,11 +46,11 @@ MANIFEST = {
     "technique": "fault enumeration: stateless choice-point exploration of fault placements (deviation-bounded) on the real git/loader code with repository snapshot oracle",
 }
 
-PKG_V1 = {"pkg/__init__.py": '"""Pkg v1."""\nfrom pkg.a import f\nVALUE = 1\n', "pkg/a.py": 'def f(x, y=1):\n    """Doc f."""\n    return x\n'}
+PKG_V1 = {"pkg/__init__.py": '"""Pkg v1."""\nfrom pkg.a import f\nVALUE = 1\n', "pkg/a.py": 'def f(x, y=1):\n    """Doc f."""\n    return x\ndef gone(): ...\n'}  # (gone: removed in v2, its breakage is located in the OLD tree)
 PKG_V2 = {"pkg/__init__.py": '"""Pkg v2."""\nfrom pkg.a import f\nVALUE = 2\n', "pkg/a.py": 'def f(x):\n    """Doc f."""\n    return x\n'}
 WRITER = "import os\nopen(os.path.join(os.path.dirname(__file__), 'written_at_import.txt'), 'w').close()\n"
 HISTORIES = ["plain", "slash-branch", "detached", "user-worktree", "dirty", "syntax-error-in-old", "absent-in-old", "writes-at-import", "stash", "user-griffe-branches"]
-OPS = ["load-static", "load-inspect", "load-extension", "load-unknown-ref", "load-slash-branch", "check", "check-base-ref", "load-relative-repo-chdir"]
+OPS = ["load-static", "load-inspect", "load-extension", "load-unknown-ref", "load-slash-branch", "check", "check-base-ref", "load-relative-repo-chdir", "diff-explain-cwd-tmpdir"]
 
 
 def _git(args, cwd, check=True):
@@ -256,6 +256,17 @@ def operate(griffe, op, repo, inj):
         return griffe.load_git("pkg", ref="v1", repo=repo, allow_inspection=False, extensions=griffe.load_extensions(make_extension(griffe, inj)))
     if op == "load-unknown-ref":
         return griffe.load_git("pkg", ref="no-such-ref", repo=repo, allow_inspection=False)
+    if op == "diff-explain-cwd-tmpdir":
+        # the working directory is the temporary directory itself: paths inside the checkout are then *relative* paths
+        cwd = os.getcwd()
+        os.chdir(os.environ["TMPDIR"])
+        try:
+            old = griffe.load_git("pkg", ref="v1", repo=repo, allow_inspection=False)
+            new = griffe.load("pkg", search_paths=[repo], allow_inspection=False)
+            text = "\n".join(b.explain(griffe.ExplanationStyle(st)) for b in griffe.find_breaking_changes(old, new) for st in ("oneline", "verbose", "markdown", "github"))
+            return ("rc", 1 if text else 0, text)
+        finally:
+            os.chdir(cwd)
     if op == "load-relative-repo-chdir":
         # the repository is given as "." and something run during the load (here an extension) changes the working directory
         cwd = os.getcwd()
@@ -303,6 +314,8 @@ def applicable(history, op):
         return history in ("plain", "writes-at-import", "dirty")
     if op == "load-relative-repo-chdir":
         return history in ("plain", "dirty", "user-worktree")
+    if op == "diff-explain-cwd-tmpdir":
+        return history in ("plain", "dirty")
     if op == "load-unknown-ref":
         return history in ("plain", "dirty")
     if op == "check":
